@@ -482,7 +482,7 @@ impl TableBootstrapInner {
     )
         requires bucket_number < 160, gen_ok(old(gc).v, old(h).s, old(tr).ev, old(gc).v.action_id),
         ensures gen_ok(final(gc).v, final(h).s, final(tr).ev, old(gc).v.action_id), extends(old(tr).ev, final(tr).ev),
-            marks_ok(old(tr).ev, final(tr).ev, true), // @C10.every_query_sent_is_recorded_on_the_queried_record
+            marks_ok(old(tr).ev, final(tr).ev, true), // @C10.every_query_sent_is_recorded_on_the_queried_record @C12.a_query_we_send_is_never_recorded_as_a_query_received
     {
         let ghost aid = gc.v.action_id;
         let ghost ev0 = tr.ev;
@@ -493,7 +493,7 @@ impl TableBootstrapInner {
         let mut vx_i: usize = 0;
         while vx_i < nodes.len()
             invariant gen_ok(gc.v, h.s, tr.ev, aid), extends(ev0, tr.ev),
-                marks_ok(ev0, tr.ev, true), // @C10.every_query_sent_is_recorded_on_the_queried_record
+                marks_ok(ev0, tr.ev, true), // @C10.every_query_sent_is_recorded_on_the_queried_record @C12.a_query_we_send_is_never_recorded_as_a_query_received
             decreases nodes.len() - vx_i,
         {
             let node = nodes[vx_i];
